@@ -40,6 +40,14 @@ SOCK_METHODS = {'recv', 'send', 'settimeout', 'sendall', 'recv_into'}
 
 
 class SockModel(Model):
+    def inline(self, walker, op, callee, st):
+        # extracted private helpers (module-level functions called by name, private methods of self) are seen in context
+        from rules.locks import is_module_helper, is_private
+        if callee.cls is None:
+            return is_module_helper(op, callee)
+        rv = op.recv_val
+        return isinstance(rv, ast.Name) and rv.id == 'self' and is_private(callee.name)
+
     def call_raises(self, walker, op, st):
         v = op.val
         f = v.func
@@ -359,9 +367,7 @@ def run(ctx):
     # reader, on every normal return path of read_ns (private self helpers inlined): recv_until(SEP) -> int(that) ->
     # recv_size(that int) -> recv(len(TERM)) tested equal to TERM
     class NsModel(SockModel):
-        def inline(self, walker, op, callee, st):
-            rv = op.recv_val
-            return isinstance(rv, ast.Name) and rv.id == 'self' and callee.name.startswith('_') and not callee.name.startswith('__')
+        pass          # SockModel already sees private helpers (methods of self and module-level functions) in context
     w3 = Walker(prog, NsModel(prog))
     n_ret = 0
     reader_ok = True
